@@ -432,11 +432,18 @@ void runScenario(const Json::Value& sc, Json::Value& out) {
       doShutdown(op.get("open_after_us", 0).asInt64());
     } else if (k == "shutdown_late") {
       quiesce();
+      bool blocked;
       {
         std::unique_lock<std::mutex> l(r.buf.m);
         if (r.buf.open) die("shutdown_late needs a closed gate");
-        if (!r.buf.cv.wait_for(l, std::chrono::seconds(10), [&] { return r.buf.ioWaiting; }))
-          die("shutdown_late: the io thread is not blocked in the sink");
+        blocked = r.buf.cv.wait_for(l, std::chrono::seconds(5), [&] { return r.buf.ioWaiting; });
+      }
+      if (!blocked) {
+        // the situation the op wants to set up (io thread inside the sink on an earlier batch) did not arise - e.g. a logger
+        // that has not started writing yet.  When lines are written is not C20's subject (only that they are, once, in
+        // order, before shutdown returns), so this is not a finding: the scenario ends with the default shutdown
+        out["late_precondition_unmet"] = true;
+        continue;
       }
       std::atomic<bool> returned{false};
       auto t0 = std::chrono::steady_clock::now();
